@@ -311,6 +311,14 @@ def gen_doc(ch, max_elems=12, max_depth=3, **opts):
                 root["kids"].insert(0 if root["kids"] and root["kids"][0]["tag"] != "style" else 1, u)
             else:
                 root["kids"].append(u)
+        if ch.coin(0.5):
+            # a chain A -> B: a group A that holds a use of B, B holding a use of its own, and a later use of A
+            inner = g.elem("use", {"href": "#" + (ch.choice(g.ids) if g.ids else "none-such")})
+            tgt["kids"].append(inner)
+            aid = "chain%d" % len(g.ids)
+            ga = g.elem("g", {"id": aid}, kids=[g.elem("use", {"href": "#" + tgt["attrs"]["id"]}), gen_shape(ch, ch.choice(SHAPES), g.classes)])
+            root["kids"].insert(ch.int(0, len(root["kids"])), ga)
+            root["kids"].append(g.elem("use", {"xlink:href": "#" + aid, "transform": ch.choice(TRANSFORMS)}))
     number(root)
     # uses must not form cycles in the fault-free document
     break_cycles(root)
@@ -585,6 +593,10 @@ def apply_faults(ch, root, n_faults, bias=None):
                 else:
                     kind = "use-missing"
                     val = "#does-not-exist"
+            elif kind == "use-cycle" and _chain_cycle(root, e, ids) is not None:
+                # a cycle through containers with ONE offending element: e sits in a group B that some group A
+                # instantiates; retargeting e at A closes the loop A -> B -> A
+                val = "#" + _chain_cycle(root, e, ids)
             else:
                 # mutual cycle: this use points at a group that contains a use pointing back at this use's parent group
                 chain = [x for x in _ancestor_chain(root, e) if x["tag"] == "g"]
@@ -609,11 +621,32 @@ def apply_faults(ch, root, n_faults, bias=None):
             continue
         if k == "path":
             val = xml_safe(bad_path(ch))
+        elif k == "colour" and ch.coin(0.4):
+            # a malformed near-spelling of a colour that well-formed siblings use: whatever the parser keeps
+            # about the bad one must not reach the good ones
+            base = ch.choice([c for c in COLORS if len(c) > 3 and c not in ("none", "currentColor")])
+            i = ch.int(1, len(base) - 1)
+            val = base[:i] + ch.choice([" ", "  ", "\t"]) + base[i:]
         else:
             val = ch.choice(BAD[k])
         e["attrs"][a] = val
         faults.append({"n": e["n"], "tag": e["tag"], "attr": a, "kind": k, "value": val})
     return faults
+
+
+def _chain_cycle(root, e, ids):
+    """id of a container A (not an ancestor of e) such that A holds a use of an ancestor B of e; or None."""
+    anc = [x for x in _ancestor_chain(root, e) if x["attrs"].get("id")]
+    anc_ids = {x["attrs"]["id"] for x in anc}
+    for a in walk(root):
+        if a["tag"] not in ("g", "svg") or not a["attrs"].get("id") or a["attrs"]["id"] in anc_ids:
+            continue
+        for u in walk(a):
+            if u["tag"] == "use" and u is not e:
+                _, h = href_of(u)
+                if h and h[1:] in anc_ids:
+                    return a["attrs"]["id"]
+    return None
 
 
 def _ancestor_chain(root, target):
@@ -663,6 +696,44 @@ def exempt_set(root, offending):
                 E |= tset
                 changed = True
     return E
+
+
+def offending_subtrees(root, offending):
+    """Serials of the offending elements and of their source descendants."""
+    E = set()
+    byn = {e["n"]: e for e in walk(root)}
+    for n in offending:
+        if n in byn:
+            for e in walk(byn[n]):
+                E.add(e["n"])
+    return E
+
+
+def referenced_by(root, offending):
+    """Serials of everything the offending use elements reference, transitively through uses inside it."""
+    ids = by_id(root)
+    byn = {e["n"]: e for e in walk(root)}
+    T = set()
+    stack = []
+    for n in offending:
+        e = byn.get(n)
+        if e is not None:
+            stack += [x for x in walk(e) if x["tag"] == "use"]
+    seen = set()
+    while stack:
+        u = stack.pop()
+        if id(u) in seen:
+            continue
+        seen.add(id(u))
+        _, h = href_of(u)
+        tgt = ids.get(h[1:]) if h and len(h) > 1 else None
+        if tgt is None:
+            continue
+        for x in walk(tgt):
+            T.add(x["n"])
+            if x["tag"] == "use":
+                stack.append(x)
+    return T
 
 
 def remove_elements(root, serials):
